@@ -1,6 +1,6 @@
 (* name -> extracted entry point *)
 open Model
-let table : (string * (z list -> z list)) list = [
+let table : (Stdlib.String.t * (z list -> z list)) list = [
   "c20", c20_entry;
   "c12", c12_entry;
   "c12_lin", c12_lin_entry;
@@ -8,4 +8,6 @@ let table : (string * (z list -> z list)) list = [
   "m1c_h", m1c_h_entry;
   "m1s", m1s_entry;
   "c08rt", c08rt_entry;
+  "c18", c18_entry;
+  "c18s", c18s_entry;
 ]
